@@ -7,6 +7,7 @@ CONSTANTS
   Merge = "grid"
   Sep = "each"
   Dedup = "none"
+  Width = "widest"
   MaxSpecial = 1
   FullCells = 3
   MaxRepeat = 3
